@@ -5,8 +5,11 @@ from . import common, gen, c03, c04
 
 LEAN_TARGETS = ["TsrunVerif.Props.C05"]
 THEOREMS = ["TsrunVerif.Parse." + t for t in ["costAgain_eq_size", "costFirst_le", "costFirst_quadratic", "costNaive_chain", "guard_bounds_recursion",
-                                               "guard_accepts_iff", "leftDeep_depth"]]
+                                               "guard_accepts_iff", "leftDeep_depth", "scan_inv", "chain_accounting_bounds_depth", "nestedChains_tdepth"]] + ["TsrunVerif.Gen.limits_sane"]
 ASSUMPTIONS = [
+    "M-Parse's trees `Tr` (recursive constructs whose children are accounting scopes; loop-built chains whose operands are parsed in the scope of the chain) and `scan` transcribe Parser::chain_link / "
+    "chain_scope; MAX_CHAIN, the two stack budgets and the number of counting loops / scope entry points are re-extracted from src/parser.rs and src/compiler/mod.rs on every run (Gen/ParserLimits.lean, obligation limits_sane); "
+    "the model's verdict is compared with the parser's 'chain is too long' on generated trees except within 50 links of the limit",
     "M-Parse abstracts a source text to its nesting skeleton and counts construct visits; the real unit of work is the lexer token (cfg(tsrun_verif) counter, re-lexing after roll-backs included); "
     "the correspondence requires work <= K * model cost on skeletons rendered in the speculative family and work <= K * size in the non-speculative families (K calibrated, stated in the evidence)",
     "the real depth guard compares stack addresses with a byte budget; the model counts levels - monotonicity of acceptance in the depth (guard_accepts_iff) is what is compared",
@@ -95,6 +98,47 @@ def product(nest, chain, d, k):
     return "let f = %s;" % e
 
 
+# ---- trees of recursive constructs and loop-built chains (M-Parse `Tr`), rendered as expressions
+def gen_tr(rng, depth, budget):
+    """-> (model text, javascript expression, is primary); budget ~ chain links still to hand out"""
+    k = rng.random()
+    if depth <= 0 or k < 0.15:
+        return "L", "x", True
+    if k < 0.45:
+        n = rng.choice([1, 1, 2, 3])
+        kids = [gen_tr(rng, depth - 1, budget // n) for _ in range(n)]
+        style = rng.choice(["paren", "array", "call"]) if n == 1 else rng.choice(["array", "call"])
+        body = ", ".join(j for _, j, _ in kids)
+        js = {"paren": "(%s)", "array": "[%s]", "call": "f(%s)"}[style] % body
+        return "W[" + "".join(m for m, _, _ in kids) + "]", js, True
+    # a chain: member links on a primary head, or binary links with primary / member-chain operands
+    links = rng.choice([1, 2, 5, 40, 300, 1500, 3000, 3900, 4100, 6000])
+    links = max(1, min(links, budget)) if budget > 0 else rng.choice([1, 2, 3])
+    hm, hj, hprim = gen_tr(rng, depth - 1, budget - links)
+    if not hprim:
+        hm, hj = "W[" + hm + "]", "(" + hj + ")"
+    if rng.random() < 0.6:
+        return "C[" + hm + "L" * links + "]", hj + ".a" * links, False
+    ops_m, ops_j = [], []
+    rest = budget - links
+    for i in range(links):
+        if i in (0, links // 2) and rng.random() < 0.5 and depth > 1:
+            om, oj, oprim = gen_tr(rng, depth - 1, max(0, rest // 2))
+            if not oprim:
+                om, oj = "W[" + om + "]", "(" + oj + ")"
+        else:
+            om, oj = "L", "y"
+        ops_m.append(om)
+        ops_j.append(oj)
+    return "C[" + hm + "".join(ops_m) + "]", hj + "".join(" + " + o for o in ops_j), False
+
+
+def pre_proof(ctx):
+    import os
+    rc, out = common.sh([os.path.join(common.ROOT, "bin", "extract")])
+    ctx.notes.append("bin/extract: " + out.strip())
+
+
 def run(ctx):
     rng = ctx.rng
     budget_of = lambda s: 20000 + 40 * len(s) * min(len(s), 600)
@@ -115,6 +159,12 @@ def run(ctx):
         for chain in CHAIN:
             for d, k in ([(4, 150), (16, 100), (8, 1000), (16, 300), (32, 200), (64, 100), (12, 500), (4, 3990), (24, 9990)] if ctx.tier == "quick" else [(2, 150), (4, 120), (4, 150), (6, 100), (8, 60), (16, 100), (64, 30), (8, 1000), (3, 5000), (256, 8), (16, 300), (32, 200), (64, 100), (12, 500), (24, 250), (6, 700), (128, 50), (4, 3990), (24, 9990), (3, 3000), (40, 2000)]):
                 add(product(nest, chain, d, k), "product %s x %s d=%d k=%d" % (nest, chain, d, k))
+    # ---- (1c) random trees of recursive constructs and chains: the accounting of M-Parse (`scan`) against the parser's
+    tr_cases = []
+    for i in range(150 if ctx.tier == "quick" else 2500):
+        m, js, _ = gen_tr(rng, rng.randint(1, 5), rng.choice([200, 3000, 4500, 9000, 20000]))
+        tr_cases.append((m, len(inputs)))
+        add("z = %s;" % js, "tree " + m[:80])
     n_stack_inputs = len(inputs)          # families and products: the inputs whose only risk is native stack use
     # ---- (2) skeleton correspondence inputs
     sk_cases = []
@@ -233,6 +283,31 @@ def run(ctx):
         acc = [got[fam_index[(name, k)]].startswith("ACC") for k in sizes]
         if any((not a) and b for a, b in zip(acc, acc[1:])):
             ctx.corr_fail("M-Parse.guard_accepts_iff: acceptance of family %s is not monotone in the nesting depth %s" % (name, list(zip(sizes, acc))), {"family": name}, "monotone", str(acc))
+    # ---- the chain accounting: the parser says "chain is too long" exactly when M-Parse's scan refuses (cases within 50 links of
+    #      the limit are not compared: the loops count a few positions differently)
+    tout = common.driver(["parse"], ["T " + m for m, _ in tr_cases])
+    thist = {"accept": 0, "refuse": 0, "near_limit": 0}
+    for (m, idx), t in zip(tr_cases, tout):
+        ctx.cov["traces_validated_against_impl"] += 1
+        f = dict(p.split("=") for p in t.split(" ")[1:]) if t.startswith("tr ") else None
+        if f is None:
+            ctx.corr_fail("M-Parse driver rejected a generated tree", m[:200], "tr ...", t[:80])
+            continue
+        if f["lo"] != f["hi"]:
+            thist["near_limit"] += 1
+            continue
+        g = got[idx]
+        impl_refuses = "tag=chain" in g
+        model_refuses = f["acc"] == "0"
+        thist["refuse" if model_refuses else "accept"] += 1
+        if impl_refuses != model_refuses:
+            ctx.corr_fail("M-Parse.scan: the parser %s a tree that the model's accounting %s (limit %s, tree depth %s, recursion depth %s)"
+                          % ("refuses" if impl_refuses else "accepts", "refuses" if model_refuses else "accepts", f["max"], f["tdepth"], f["rdepth"]),
+                          {"tree": m[:300], "source": origin[idx][1][:300], "impl": g[:80]}, "refuse" if model_refuses else "accept", g[:60])
+        # chain_accounting_bounds_depth on the instance: an accepted tree is at most MAX_CHAIN deeper than the recursion
+        if not model_refuses and int(f["tdepth"]) > int(f["rdepth"]) + int(f["max"]):
+            ctx.corr_fail("M-Parse: theorem chain_accounting_bounds_depth fails on an instance", m[:200], "", t)
+    ctx.cov["chain_accounting"] = thist
     # ---- correspondence with the model's cost on random skeletons
     mout = common.driver(["parse"], [sk for sk, _, _ in sk_cases])
     worst = {"spec": 0.0, "lin": 0.0}
